@@ -1609,12 +1609,13 @@ ASSUMPTIONS = ['A-REAL: floats are reals; A-INT: integers are mathematical; no N
                'gelman_rubin_statistic: 2-D input with N >= 4 (two draws per half chain) and positive within-sequence variance (else 0/0)',
                'numpy_to_python_type: distinct top-level keys hold distinct nested dict objects; sample_object_to_dict: no meta key equals the name of a copied attribute',
                'A-LOG: logging / print calls have no effect']
-NOT_PROVED = ['the effective-sample-size ... diagnostics ... equal their textbook formulas: ESS equals its textbook formula - FFT autocovariance (numpy.fft.rfft / irfft) has no usable first-order '
-              'specification and the truncation loop is data dependent; not decided (bounded: invariances only)',
-              'the effective-sample-size ... diagnostics are invariant under affine rescaling of the chains and reordering of chains: for ESS bounded only (x -> -3x+7 and every chain order, C <= 4, N in 4..9)',
-              'Saving a sample to pickle, JSON or CSV and reading it back yields the same samples: byte fidelity of pickle / json float repr / csv text is library behaviour - bounded only '
+NOT_PROVED = ['"the effective-sample-size and split R-hat diagnostics ... equal their textbook formulas" - the ESS half: FFT autocovariance (numpy.fft.rfft / irfft) has no usable '
+              'first-order specification and the truncation loop is data dependent; not decided (the R-hat half is proved)',
+              '"the effective-sample-size and split R-hat diagnostics are invariant under affine rescaling of the chains and reordering of chains" - the ESS half: bounded only '
+              '(x -> -3x+7 and every chain order, C <= 4, N in 4..9); it would follow from an assumed axiom autocov(a x + b) = a^2 autocov(x), not attempted',
+              '"Saving a sample to pickle, JSON or CSV and reading it back yields the same samples": byte fidelity of pickle / json float repr / csv text is library behaviour - bounded only '
               '(round trips in a temp dir); proved: which keys sample_object_to_dict copies and which values numpy_to_python_type converts (one nesting level)',
-              'Sample.save itself (file handling, json.dumps, csv.writer) is not under contract; its JSON branch is covered through its two helpers and the bounded round trips',
+              'Sample.save itself (file handling, json.dumps, csv.writer, the populations letters) is not under contract; its JSON branch is covered through its two helpers and the bounded round trips',
               'R-hat invariance for ALL shapes is proved at the level of the specification (LemmaRhatAffine / LemmaRhatPermutation over the definitional sums, to which GelmanRubin ties the code); '
               'on the real body directly it is proved by CAS at the listed small shapes only']
 
@@ -1667,7 +1668,7 @@ def bounded(tier, seed):
     return b.run(tier, seed)
 
 
-_FAMILY = [('Sample.', 'sample'), ('BolfiSample', 'bolfi'), ('gelman_rubin', 'diag'), ('lemma_rhat', None), ('lemma_', None),
+_FAMILY = [('Sample.', 'sample'), ('BolfiSample', 'bolfi'), ('BOLFIRESample', 'bolfi'), ('gelman_rubin', 'diag'), ('lemma_rhat', None), ('lemma_', None),
            ('numpy_to_python_type', 'save'), ('sample_object_to_dict', 'save')]
 _replay_cache = {}
 
